@@ -549,6 +549,13 @@ func (ts *TermStore) Cmp(op Op, a, b *Term) *Term {
 	if a == b {
 		return ts.Bool(op == OpULe || op == OpSLe)
 	}
+	// x % n < n  <=>  n != 0   (bvurem x 0 = x)
+	if op == OpULt && a.op == OpURem && a.a[1] == b {
+		return ts.Ne(b, ts.Const(b.w, 0))
+	}
+	if op == OpULe && b.op == OpURem && b.a[1] == a {
+		return ts.Eq(a, ts.Const(a.w, 0))
+	}
 	alo, ahi := ts.ubounds(a)
 	blo, bhi := ts.ubounds(b)
 	switch op {
